@@ -63,22 +63,22 @@ VARIABLES
   bclosed,  \* [node -> the node has closed the current connection]
   nclose,   \* connections dropped by nodes so far
   hops,     \* [fid -> redirects so far]
-  phase, ready, woke, seen,
-  ntask0,   \* length of the task queue when the iteration started
-  stale,    \* the wake-up fd was signalled again after it had been read (tasks triggered by callbacks of an
-            \* iteration that ran the queue): the next iteration may see it although no task is waiting
+  phase, ready, seen,
+  efd,      \* the poller's wake-up eventfd is signalled (readable)
+  wcall,    \* Poller.wakeupCall: a Trigger has signalled the eventfd and the task queue has not been run since
+  wread,    \* this iteration has read the eventfd (doChores): the task queue runs after the callbacks
   halted,   \* the scenario has ended (quiescence has been observed)
   mon,      \* the RcMon monitor
   out,      \* events emitted by the proxy during the current iteration (what an observer sees)
   sched     \* environment choices so far (for replay)
 
 vars == <<nsent, cbuf, cclosed, copen, closing, inq, msg, frag, outfq, infq, sopen, sgen, tasks, ttree,
-          expired, bq, b2p, bclosed, nclose, hops, phase, ready, woke, seen, ntask0, stale, halted, mon, out, sched>>
+          expired, bq, b2p, bclosed, nclose, hops, phase, ready, seen, efd, wcall, wread, halted, mon, out, sched>>
 
 \* sched is written, never read: the exhaustive runs hide it (VIEW) so that behaviours that differ only in
 \* the order of commuting environment choices are explored once
 view == <<nsent, cbuf, cclosed, copen, closing, inq, msg, frag, outfq, infq, sopen, sgen, tasks, ttree,
-          expired, bq, b2p, bclosed, nclose, hops, phase, ready, woke, seen, ntask0, stale, halted, mon, out>>
+          expired, bq, b2p, bclosed, nclose, hops, phase, ready, seen, efd, wcall, wread, halted, mon, out>>
 
 NoRid == <<"", 0>>
 Asking == <<"asking", 0, "">>        \* the ownerless ASKING fragment
@@ -126,7 +126,7 @@ Init ==
   /\ bq = [n \in Nodes |-> <<>>] /\ b2p = [n \in Nodes |-> <<>>]
   /\ bclosed = [n \in Nodes |-> FALSE] /\ nclose = 0
   /\ hops = <<>>
-  /\ phase = "poll" /\ ready = {} /\ woke = FALSE /\ seen = <<>> /\ ntask0 = 0 /\ stale = FALSE
+  /\ phase = "poll" /\ ready = {} /\ seen = <<>> /\ efd = FALSE /\ wcall = FALSE /\ wread = FALSE
   /\ halted = FALSE
   /\ mon = MonInit /\ out = <<>>
   /\ sched = <<>>
@@ -145,7 +145,7 @@ CliSend(c, r) ==
      /\ mon' = MonApply(mon, [Ev0 EXCEPT !.ev = "send", !.c = c, !.i = i, !.k = r.k, !.slots = r.slots])
      /\ sched' = Append(sched, [op |-> "send", c |-> c, n |-> "", req |-> r, kind |-> "", cls |-> "", to |-> ""])
   /\ UNCHANGED <<cclosed, copen, closing, inq, msg, frag, outfq, infq, sopen, sgen, tasks, ttree, expired,
-                 bq, b2p, bclosed, nclose, hops, phase, ready, woke, seen, ntask0, stale, halted, out>>
+                 bq, b2p, bclosed, nclose, hops, phase, ready, seen, efd, wcall, wread, halted, out>>
 
 CliClose(c) ==
   /\ Env /\ AllowCliClose /\ ~cclosed[c] /\ (CanonKinds => nsent[c] > 0)   \* (model checking: a client that never sent is uninteresting)
@@ -153,7 +153,7 @@ CliClose(c) ==
   /\ mon' = MonApply(mon, [Ev0 EXCEPT !.ev = "cclose", !.c = c])
   /\ sched' = Append(sched, [op |-> "cclose", c |-> c, n |-> "", req |-> [k |-> "", slots |-> <<>>], kind |-> "", cls |-> "", to |-> ""])
   /\ UNCHANGED <<nsent, cbuf, copen, closing, inq, msg, frag, outfq, infq, sopen, sgen, tasks, ttree, expired,
-                 bq, b2p, bclosed, nclose, hops, phase, ready, woke, seen, ntask0, stale, halted, out>>
+                 bq, b2p, bclosed, nclose, hops, phase, ready, seen, efd, wcall, wread, halted, out>>
 
 \* what a node says about the keys of a fragment
 ValsFor(kind, len) == [x \in 1..len |-> IF kind = "nil" \/ (kind = "mix" /\ x % 2 = 0) THEN "nil"
@@ -187,7 +187,7 @@ BkAnswer(n, a) ==
                           \o [x \in DOMAIN rest[2] |-> [Ev0 EXCEPT !.ev = "answerauto", !.n = n, !.conn = Conn(n)]])
      /\ sched' = Append(sched, [op |-> "answer", c |-> "", n |-> n, req |-> [k |-> "", slots |-> <<>>], kind |-> kind, cls |-> cls, to |-> to])
   /\ UNCHANGED <<nsent, cbuf, cclosed, copen, closing, inq, msg, frag, outfq, infq, sopen, sgen, tasks, ttree,
-                 expired, bclosed, nclose, phase, ready, woke, seen, ntask0, stale, halted, out>>
+                 expired, bclosed, nclose, phase, ready, seen, efd, wcall, wread, halted, out>>
 
 BkClose(n) ==
   /\ Env /\ nclose < MaxBkClose /\ sopen[n] /\ ~bclosed[n]
@@ -197,7 +197,7 @@ BkClose(n) ==
   /\ mon' = MonApply(mon, [Ev0 EXCEPT !.ev = "bclose", !.n = n, !.conn = Conn(n)])
   /\ sched' = Append(sched, [op |-> "bclose", c |-> "", n |-> n, req |-> [k |-> "", slots |-> <<>>], kind |-> "", cls |-> "", to |-> ""])
   /\ UNCHANGED <<nsent, cbuf, cclosed, copen, closing, inq, msg, frag, outfq, infq, sopen, sgen, tasks, ttree,
-                 expired, b2p, hops, phase, ready, woke, seen, ntask0, stale, halted, out>>
+                 expired, b2p, hops, phase, ready, seen, efd, wcall, wread, halted, out>>
 
 Expire ==   \* time passes: the earliest deadline not yet reached is reached
   /\ Env /\ TimeoutOn
@@ -207,9 +207,18 @@ Expire ==   \* time passes: the earliest deadline not yet reached is reached
        /\ expired' = expired \cup {ttree[j]}
        /\ mon' = MonApply(mon, [Ev0 EXCEPT !.ev = "expire", !.c = ttree[j][1], !.i = ttree[j][2], !.fid = "f",
                                             !.slots = <<ttree[j][3]>>])
+  /\ efd' = TRUE        \* the periodic probe (in the harness: an explicit wake-up) makes the loop notice
   /\ sched' = Append(sched, [op |-> "expire", c |-> "", n |-> "", req |-> [k |-> "", slots |-> <<>>], kind |-> "", cls |-> "", to |-> ""])
   /\ UNCHANGED <<nsent, cbuf, cclosed, copen, closing, inq, msg, frag, outfq, infq, sopen, sgen, tasks, ttree,
-                 bq, b2p, bclosed, nclose, hops, phase, ready, woke, seen, ntask0, stale, halted, out>>
+                 bq, b2p, bclosed, nclose, hops, phase, ready, seen, wcall, wread, halted, out>>
+
+\* something else signals the wake-up fd (in production the once-per-second probe; in the harness an explicit
+\* "wake").  Spurious wake-ups only add an iteration, so the exhaustive runs leave them out (CanonKinds).
+Wake ==
+  /\ Env /\ ~CanonKinds /\ ~efd
+  /\ efd' = TRUE
+  /\ UNCHANGED <<nsent, cbuf, cclosed, copen, closing, inq, msg, frag, outfq, infq, sopen, sgen, tasks, ttree, expired,
+                 bq, b2p, bclosed, nclose, hops, phase, ready, seen, wcall, wread, halted, mon, out, sched>>
 
 -----------------------------------------------------------------------------
 (* The poller iteration *)
@@ -221,17 +230,22 @@ TimerDue == \E j \in 1..Len(ttree) : ttree[j] \in expired /\ ~frag[ttree[j]].don
 
 StartIter ==
   /\ phase = "poll" /\ ~halted
-  /\ (ReadyFds # {} \/ tasks # <<>> \/ TimerDue \/ stale)   \* TimerDue: the once-per-second probe wakes the loop
-  /\ ready' = ReadyFds
-  \* the wake-up fd: tasks are waiting, or a passed deadline is noticed through the periodic wake-up, or (stale) it
-  \* was signalled again after being read in the previous iteration
-  /\ \E w \in (IF stale /\ ReadyFds # {} THEN {TRUE, tasks # <<>> \/ TimerDue} ELSE {tasks # <<>> \/ TimerDue \/ stale}) : woke' = w
-  /\ ntask0' = Len(tasks) /\ stale' = FALSE
-  /\ seen' = <<>> /\ out' = <<>>
+  /\ (ReadyFds # {} \/ efd)
+  /\ ready' = ReadyFds \cup (IF efd THEN {<<"W", "">>} ELSE {})
+  /\ seen' = <<>> /\ out' = <<>> /\ wread' = FALSE
   /\ phase' = "cb"
   /\ sched' = Append(sched, [op |-> "iter", c |-> "", n |-> "", req |-> [k |-> "", slots |-> <<>>], kind |-> "", cls |-> "", to |-> ""])
   /\ UNCHANGED <<nsent, cbuf, cclosed, copen, closing, inq, msg, frag, outfq, infq, sopen, sgen, tasks, ttree,
-                 expired, bq, b2p, bclosed, nclose, hops, halted, mon>>
+                 expired, bq, b2p, bclosed, nclose, hops, efd, wcall, halted, mon>>
+
+\* the wake-up fd's turn among this iteration's events: read it; the task queue will run after the callbacks
+ReadWake ==
+  /\ phase = "cb" /\ <<"W", "">> \in ready
+  /\ ready' = ready \ {<<"W", "">>}
+  /\ efd' = FALSE /\ wread' = TRUE
+  /\ seen' = Append(seen, <<"W", "", 0>>)
+  /\ UNCHANGED <<nsent, cbuf, cclosed, copen, closing, inq, msg, frag, outfq, infq, sopen, sgen, tasks, ttree,
+                 expired, bq, b2p, bclosed, nclose, hops, phase, wcall, halted, mon, out, sched>>
 
 \* ---- MsgPool (sync.Pool): Get returns any pooled object or a new one
 PoolGetChoices == LET pooled == {m \in 1..MaxMsg : ~msg[m].inuse /\ msg[m].pooled}
@@ -243,11 +257,12 @@ PutReset(mr) == [FreshMsg EXCEPT !.pooled = TRUE]
 \* ---- the part of the heap that callbacks thread through helper operators
 Heap == [copen |-> copen, closing |-> closing, inq |-> inq, msg |-> msg, frag |-> frag, outfq |-> outfq,
          infq |-> infq, sopen |-> sopen, sgen |-> sgen, tasks |-> tasks, ttree |-> ttree, bq |-> bq,
-         b2p |-> b2p, bclosed |-> bclosed, evs |-> <<>>]
+         b2p |-> b2p, bclosed |-> bclosed, efd |-> efd, wcall |-> wcall, evs |-> <<>>]
 SetHeap(h) ==
   /\ copen' = h.copen /\ closing' = h.closing /\ inq' = h.inq /\ msg' = h.msg /\ frag' = h.frag
   /\ outfq' = h.outfq /\ infq' = h.infq /\ sopen' = h.sopen /\ sgen' = h.sgen /\ tasks' = h.tasks
   /\ ttree' = h.ttree /\ bq' = h.bq /\ b2p' = h.b2p /\ bclosed' = h.bclosed
+  /\ efd' = h.efd /\ wcall' = h.wcall
   /\ mon' = Fold(mon, h.evs) /\ out' = out \o h.evs
 Emit(h, e) == [h EXCEPT !.evs = Append(@, e)]
 
@@ -292,7 +307,9 @@ GetConn(h, n) ==
 \* EnqueueOutFrag + Trigger(handleWriteSignal)
 Enqueue(h, n, f) ==
   LET h1 == GetConn(h, n) IN
-  [h1 EXCEPT !.outfq[n] = Append(@, f), !.tasks = Append(@, <<"wsig", n, h1.sgen[n]>>)]
+  \* Trigger: queue the task; signal the eventfd unless a signal is already outstanding (wakeupCall)
+  [h1 EXCEPT !.outfq[n] = Append(@, f), !.tasks = Append(@, <<"wsig", n, h1.sgen[n]>>),
+             !.efd = IF h1.wcall THEN @ ELSE TRUE, !.wcall = TRUE]
 
 \* OnCReact's loop over the request's fragments, in map-iteration (i.e. arbitrary) order
 RECURSIVE Route(_, _, _, _, _)
@@ -326,7 +343,7 @@ CbClientReadOne(c) ==
        /\ cbuf' = [cbuf EXCEPT ![c] = <<>>]
        /\ ready' = ready \ {<<"c", c>>}
        /\ seen' = IF <<"c", c, 0>> \in SeqRange(seen) THEN seen ELSE Append(seen, <<"c", c, 0>>)
-       /\ UNCHANGED <<copen, closing, inq, msg, frag, outfq, infq, sopen, sgen, tasks, ttree, bq, b2p, bclosed, mon, out>>
+       /\ UNCHANGED <<copen, closing, inq, msg, frag, outfq, infq, sopen, sgen, tasks, ttree, bq, b2p, bclosed, efd, wcall, mon, out>>
      ELSE IF cbuf[c] # <<>> THEN
        LET i == Head(cbuf[c])[1]
            r == Head(cbuf[c])[2]
@@ -359,7 +376,7 @@ CbClientReadOne(c) ==
        /\ ready' = ready \ {<<"c", c>>}
        /\ seen' = IF <<"c", c, 0>> \in SeqRange(seen) THEN seen ELSE Append(seen, <<"c", c, 0>>)
        /\ UNCHANGED cbuf
-  /\ UNCHANGED <<nsent, cclosed, expired, nclose, hops, phase, woke, ntask0, stale, halted, sched>>
+  /\ UNCHANGED <<nsent, cclosed, expired, nclose, hops, phase, wread, halted, sched>>
 
 \* A write to a client that has already closed its end can fail (EPIPE / ECONNRESET, depending on when the
 \* kernel saw the reset): closeConn(c) then runs in the middle of cread and the rest of what was read is
@@ -370,7 +387,7 @@ ClientAbort(c) ==
   /\ cbuf' = [cbuf EXCEPT ![c] = <<>>]
   /\ ready' = ready \ {<<"c", c>>}
   /\ seen' = IF <<"c", c, 0>> \in SeqRange(seen) THEN seen ELSE Append(seen, <<"c", c, 0>>)
-  /\ UNCHANGED <<nsent, cclosed, expired, nclose, hops, phase, woke, ntask0, stale, halted, sched>>
+  /\ UNCHANGED <<nsent, cclosed, expired, nclose, hops, phase, wread, halted, sched>>
 
 -----------------------------------------------------------------------------
 RemoveFrom(seq, x) == SelectSeq(seq, LAMBDA e : e # x)
@@ -462,13 +479,13 @@ CbServerReadOne(n) ==
           IN SetHeap(h2)
        /\ ready' = ready \ {<<"s", n>>}
   /\ seen' = IF <<"s", n, sgen[n]>> \in SeqRange(seen) THEN seen ELSE Append(seen, <<"s", n, sgen[n]>>)
-  /\ UNCHANGED <<nsent, cbuf, cclosed, expired, nclose, hops, phase, woke, ntask0, stale, halted, sched>>
+  /\ UNCHANGED <<nsent, cbuf, cclosed, expired, nclose, hops, phase, wread, halted, sched>>
 
 EndCallbacks ==
   /\ phase = "cb" /\ ready = {}
-  /\ phase' = IF woke THEN "tasks" ELSE "tmo"
+  /\ phase' = IF wread THEN "tasks" ELSE "tmo"
   /\ UNCHANGED <<nsent, cbuf, cclosed, copen, closing, inq, msg, frag, outfq, infq, sopen, sgen, tasks, ttree,
-                 expired, bq, b2p, bclosed, nclose, hops, ready, woke, seen, ntask0, stale, halted, mon, out, sched>>
+                 expired, bq, b2p, bclosed, nclose, hops, ready, seen, efd, wcall, wread, halted, mon, out, sched>>
 
 \* the task queue: write signals (tasks triggered while the queue is being run are run in the same batch)
 RECURSIVE RunAll(_)
@@ -501,11 +518,11 @@ RunAll(h) ==
 
 RunTasks ==
   /\ phase = "tasks"
-  /\ SetHeap(RunAll(Heap))
-  /\ phase' = "tmo" /\ woke' = FALSE
-  /\ stale' = (Len(tasks) > ntask0)    \* a callback of this iteration triggered a task after the wake-up fd was read
-  /\ seen' = Append(seen, <<"W", "", 0>>)
-  /\ UNCHANGED <<nsent, cbuf, cclosed, expired, nclose, hops, ready, ntask0, halted, sched>>
+  /\ LET h == RunAll(Heap) IN
+     \* after the batch wakeupCall is cleared (the queue is empty: nothing to re-signal for)
+     SetHeap([h EXCEPT !.wcall = FALSE])
+  /\ phase' = "tmo" /\ wread' = FALSE
+  /\ UNCHANGED <<nsent, cbuf, cclosed, expired, nclose, hops, ready, seen, halted, sched>>
 
 \* msgTimeout: scan the tree from the earliest deadline
 RECURSIVE Scan(_)
@@ -529,20 +546,21 @@ TimeoutScan ==
      /\ copen' = h.copen /\ closing' = h.closing /\ inq' = h.inq /\ msg' = h.msg /\ frag' = h.frag
      /\ outfq' = h.outfq /\ infq' = h.infq /\ sopen' = h.sopen /\ sgen' = h.sgen /\ tasks' = h.tasks
      /\ ttree' = h.ttree /\ bq' = h.bq /\ b2p' = h.b2p /\ bclosed' = h.bclosed
+     /\ efd' = h.efd /\ wcall' = h.wcall
      /\ out' = out \o h.evs
      /\ mon' = MonApply(Fold(mon, h.evs),
                         [Ev0 EXCEPT !.ev = "iter", !.seen = [j \in DOMAIN seen |-> IF seen[j][1] = "s" THEN [k |-> "s", n |-> <<seen[j][2], seen[j][3]>>]
                                                                         ELSE [k |-> seen[j][1], n |-> seen[j][2]]]])
   /\ phase' = "poll"
-  /\ UNCHANGED <<nsent, cbuf, cclosed, expired, nclose, hops, ready, woke, seen, ntask0, stale, halted, sched>>
+  /\ UNCHANGED <<nsent, cbuf, cclosed, expired, nclose, hops, ready, seen, wread, halted, sched>>
 
 \* the scenario ends once nothing can happen inside the proxy; the observer then concludes absence
 Quiesce ==
-  /\ phase = "poll" /\ ~halted /\ ReadyFds = {} /\ tasks = <<>> /\ ~TimerDue /\ ~stale
+  /\ phase = "poll" /\ ~halted /\ ReadyFds = {} /\ ~efd
   /\ halted' = TRUE
   /\ mon' = MonApply(mon, [Ev0 EXCEPT !.ev = "quiesce"])
   /\ UNCHANGED <<nsent, cbuf, cclosed, copen, closing, inq, msg, frag, outfq, infq, sopen, sgen, tasks, ttree,
-                 expired, bq, b2p, bclosed, nclose, hops, phase, ready, woke, seen, ntask0, stale, out, sched>>
+                 expired, bq, b2p, bclosed, nclose, hops, phase, ready, seen, efd, wcall, wread, out, sched>>
 
 Next ==
   \/ \E c \in Clients, r \in Menu : CliSend(c, r)
@@ -550,7 +568,9 @@ Next ==
   \/ \E n \in Nodes, a \in AnswerKinds : BkAnswer(n, a)
   \/ \E n \in Nodes : BkClose(n)
   \/ Expire
+  \/ Wake
   \/ StartIter
+  \/ ReadWake
   \/ \E c \in Clients : CbClientReadOne(c)
   \/ \E c \in Clients : ClientAbort(c)
   \/ \E n \in Nodes : CbServerReadOne(n)
